@@ -31,6 +31,10 @@ Definition cexec (kd : ckind) (s : store) (o : cop) : outcome (store * list val)
 (** [Config]: Null when absent. *)
 Definition cget (s : store) (key : bytes) : option bytes := s !! (config_pfx ++ key).
 
+(** The call: a storage key longer than 64 bytes faults (StoreLib). *)
+Definition cget_call (s : store) (key : bytes) : outcome (option bytes) :=
+  with_key (config_pfx ++ key) (cget s key).
+
 (** [ListConfig]: pairs with the prefix removed, in Find order. *)
 Definition clist (s : store) : list (bytes * bytes) :=
   map (fun kv => (drop (length config_pfx) (fst kv), snd kv)) (sfind config_pfx s).
@@ -50,7 +54,7 @@ Definition opt_val (o : option bytes) : val :=
 
 Definition cobserve (keys : list bytes) (s : store) (r : val) (ns : list val) : val :=
   VList [ r; VList ns;
-          VList (map (fun k => opt_val (cget s k)) keys);
+          VList (map (fun k => match cget_call s k with Halt o => opt_val o | Fault => VFault end) keys);
           VList (map (fun kv => VList [VBytes (fst kv); VBytes (snd kv)]) (clist s)) ].
 
 Definition cstep_obs (kd : ckind) (keys : list bytes) (s : store) (o : cop) : store * val :=
